@@ -38,7 +38,11 @@ BEHS_EXTRA = BEHS + ["raise_base", "raise_base_if_exc", "reraise_same", "reraise
                      # standard exception types a library may be tempted to catch for its own purposes
                      "raise_std:StopAsyncIteration", "raise_std:RuntimeError", "raise_std:KeyError", "raise_std:AttributeError",
                      "raise_std:TypeError", "raise_std:GeneratorExit", "raise_std:Exception", "raise_std:BaseException", "raise_chained", "raise_chained", "raise_while_reraising", "raise_while_reraising",
-                     "raise_block_exception_again", "raise_block_exception_again"]
+                     "raise_block_exception_again", "raise_block_exception_again",
+                     # the exit answers an exception with an object whose truth value cannot be taken ("ambiguous",
+                     # as for an array): the with statement's own truth test fails, which is one more exception
+                     # raised while leaving that block - the enclosing exits still run and may handle it
+                     "ambiguous_if_exc", "ambiguous_if_exc"]
 STD = {"StopAsyncIteration": StopAsyncIteration, "RuntimeError": RuntimeError, "KeyError": KeyError,
        "AttributeError": AttributeError, "TypeError": TypeError, "GeneratorExit": GeneratorExit,
        "Exception": Exception, "BaseException": BaseException}
@@ -125,6 +129,14 @@ def mk_entry(kind, beh, i, log, susp, choice, shared=None):
         if beh == "raise_if_exc":
             if ev is not None:
                 raise E(f"h{i}")
+            return None
+        if beh == "ambiguous_if_exc":
+            if ev is not None:
+                class Ambiguous:
+                    def __bool__(self):
+                        raise E(f"amb{i}")
+
+                return Ambiguous()
             return None
         if beh == "reraise_same":
             # hand the very exception that is in flight back (what `raise` in an except clause does)
